@@ -703,3 +703,62 @@ func jsonTargetRule(c *core.Ctx, rule string, pkgs ...string) {
 		c.Undecided(rule, "sites", token.NoPos, "no json decode site found in "+strings.Join(pkgs, ", "))
 	}
 }
+
+// returnedValue resolves result #i of a return instruction through the spill go/ssa introduces
+// in functions with defer (`*r = v; rundefers; t = *r; return t`): the value stored into the
+// result local in the same block, or in the unique non-reload store to it.
+func returnedValue(ret *ssa.Return, i int) ssa.Value {
+	v := ret.Results[i]
+	u, ok := v.(*ssa.UnOp)
+	if !ok || u.Op != token.MUL {
+		return v
+	}
+	al, ok := u.X.(*ssa.Alloc)
+	if !ok {
+		return v
+	}
+	var last ssa.Value
+	for _, in := range ret.Block().Instrs {
+		if st, ok := in.(*ssa.Store); ok && st.Addr == ssa.Value(al) {
+			last = st.Val
+		}
+	}
+	if last != nil {
+		if r := unspill(last); r != nil {
+			return r
+		}
+		return last
+	}
+	if r := unspill(v); r != nil {
+		return r
+	}
+	return v
+}
+
+// unspill: v is a load of a local all of whose stores but one are reloads of itself; returns
+// the value of that one store (nil otherwise).
+func unspill(v ssa.Value) ssa.Value {
+	u, ok := v.(*ssa.UnOp)
+	if !ok || u.Op != token.MUL {
+		return nil
+	}
+	al, ok := u.X.(*ssa.Alloc)
+	if !ok || al.Referrers() == nil {
+		return nil
+	}
+	var real []ssa.Value
+	for _, r := range *al.Referrers() {
+		st, ok := r.(*ssa.Store)
+		if !ok || st.Addr != ssa.Value(al) {
+			continue
+		}
+		if lu, isLoad := st.Val.(*ssa.UnOp); isLoad && lu.Op == token.MUL && lu.X == ssa.Value(al) {
+			continue
+		}
+		real = append(real, st.Val)
+	}
+	if len(real) == 1 {
+		return real[0]
+	}
+	return nil
+}
